@@ -195,7 +195,7 @@ func renderAtomConstraint(w *yw, ind int, a Atom) {
 			qs = append(qs, yq(v))
 		}
 		w.line(ind, fmt.Sprintf("%s: [%s]", a.Kind, strings.Join(qs, ", ")))
-	case "lessThanProperty", "lessThanOrEqualsToProperty", "equalsToProperty", "disjointWithProperty":
+	case "lessThanProperty", "lessThanOrEqualsToProperty", "equalsToProperty", "disjointWithProperty", "moreThanProperty", "moreThanOrEqualsToProperty":
 		w.line(ind, fmt.Sprintf("%s: %s", a.Kind, yq(a.Other.Render())))
 	case "datatype":
 		w.line(ind, fmt.Sprintf("datatype: %s", yq(compactDt(a.Dt))))
@@ -203,8 +203,6 @@ func renderAtomConstraint(w *yw, ind int, a Atom) {
 		w.line(ind, fmt.Sprintf("pattern: %s", yq(a.patternText())))
 	case "uniqueValues":
 		w.line(ind, fmt.Sprintf("uniqueValues: %v", a.UArg == nil || *a.UArg))
-	case "moreThanProperty", "moreThanOrEqualsToProperty":
-		w.line(ind, fmt.Sprintf("%s: %s", a.Kind, yq(a.Other.Render())))
 	default:
 		panic("atom kind " + a.Kind)
 	}
